@@ -55,12 +55,35 @@ SELECTORS = ["fa > x", "fa(x) > y", "fb > fa > x"]
 REFUSED = [["fa > nosuch"], ["fb > fa > nosuch"], ["fa > x", "fb(z) > nosuch"]]
 
 
-def expected_events(pidx, op, v):
+# second family: probes on different attributes of one object, and a tag-restricted vs a plain capture of one variable
+# (selectors whose capture sets differ only in the attribute / the category)
+SRC_ATTR = '''
+def fa(v):
+    o = Obj(val=0)
+    o.p = v
+    w: tag.T = v + 2
+    o.q = v + 1
+    w = v + 3
+    return o.q
+
+def fb(v):
+    z = v * 2
+    return fa(z)
+'''
+TMPL_ATTR = {"name": "c05_attr", "src": "from ptera import tag\n" + SRC_ATTR, "funcs": ["fa"], "twin_funcs": ["fa", "fb"], "gen": False}
+SELECTORS_ATTR = ["fa > o.p", "fa > o.q", "fb > fa > o.p"]
+SELECTORS_TAG = ["fa > w:@T", "fa > w", "fb > fa > w:@T"]
+
+
+def expected_events(pidx, op, v, family="vars"):
     """Events probe `pidx` must receive for a call step."""
-    if op == 5:  # fa(v)
-        return [[{"x": v}], [{"x": v, "y": v + 1}], []][pidx]
-    z = v * 2  # fb(v) calls fa(2v)
-    return [[{"x": z}], [{"x": z, "y": z + 1}], [{"x": z}]][pidx]
+    z = v if op == 5 else v * 2  # fb(v) calls fa(2v)
+    path = [] if op == 5 else None
+    if family == "attr":
+        return [[{"o.p": z}], [{"o.q": z + 1}], [{"o.p": z}] if path is None else path][pidx]
+    if family == "tag":
+        return [[{"w": z + 2}], [{"w": z + 2}, {"w": z + 3}], [{"w": z + 2}] if path is None else path][pidx]
+    return [[{"x": z}], [{"x": z, "y": z + 1}], [{"x": z}] if path is None else path][pidx]
 
 
 def build(case):
@@ -81,9 +104,11 @@ def build(case):
         first = p.get("first")  # shard: values of the first two operations
         second = p.get("second")
         alphabet = p.get("alphabet") or list(range(8))
+        family = p.get("family", "vars")
+        TM, SELS = {"vars": (TMPL, SELECTORS), "attr": (TMPL_ATTR, SELECTORS_ATTR), "tag": (TMPL_ATTR, SELECTORS_TAG)}[family]
 
         def run(base, ops):
-            ns, _ = load(TMPL)
+            ns, _ = load(TM)
             fa, fb = ns["fa"], ns["fb"]
             orig = {"fa": fa.__code__, "fb": fb.__code__}
             probes = [None, None, None]
@@ -106,7 +131,7 @@ def build(case):
 
             def activate(i):
                 with NoTracing():  # parsing/resolving the (concrete) selector text is not what is checked here
-                    sel = select(SELECTORS[i], env=ns)
+                    sel = select(SELS[i], env=ns)
                 probes[i] = probing(sel)
                 probes[i].__enter__()
                 probes[i].subscribe(lambda d, i=i: lists[i].append(dict(d)))
@@ -175,7 +200,7 @@ def build(case):
                                 {"fp": "C05:history:return-value"})
                         for i in range(3):
                             if probes[i] is not None:
-                                exp[i] = expected_events(i, op, v)
+                                exp[i] = expected_events(i, op, v, family)
                         nact += 1
                     for i in range(3):
                         new = lists[i][before[i]:]
@@ -189,10 +214,10 @@ def build(case):
                                     "an active probe did not receive each matching event exactly once "
                                     f"(got {len(new)}, expected {len(exp[i])})",
                                     {"fp": f"C05:history:active-{'lost' if len(new) < len(exp[i]) else 'duplicated'}",
-                                     "probe": SELECTORS[i]})
+                                     "probe": SELS[i]})
                             for g, e in zip(new, exp[i]):
                                 require(set(g) == set(e) and all(g[k] == e[k] for k in e), "event with wrong content",
-                                        {"fp": "C05:history:content", "probe": SELECTORS[i]})
+                                        {"fp": "C05:history:content", "probe": SELS[i]})
                     if all(pr is None for pr in probes) and not twin:
                         quiescent(f"after step {step}")
                 if twin:
@@ -292,6 +317,11 @@ def cases(tier, seed):
     for first in (0, 8, 9, 10, 5, 6):
         cs.append({"id": f"refusal:first={first}", "params": {"kind": "history", "n": 5 if th else 4, "first": first, "alphabet": alpha},
                    "budget_s": 3000 if th else 280, "per_path_s": 30})
+    # probes whose capture sets differ only in the attribute of one object / in the category of one variable
+    for fam in ("attr", "tag"):
+        for first in (0, 1, 2, 5, 6):
+            cs.append({"id": f"{fam}:first={first}", "params": {"kind": "history", "n": 5 if th else 4, "first": first, "family": fam},
+                       "budget_s": 3000 if th else 280, "per_path_s": 30})
     cs.append({"id": "history:twin", "params": {"kind": "history", "n": 5, "first": 0}, "vacuity_twin": True,
                "stop_on_refute": True, "budget_s": 100})
     cs.append({"id": "inductive", "params": {"kind": "inductive"}, "budget_s": 1200 if th else 280})
